@@ -9,6 +9,7 @@ from __future__ import annotations
 
 from ..enum_core import run_enumeration, plan_cases, conn_state_name
 from ..world import exc_name, documented
+import httpcore  # noqa: E402
 
 ID = "C05"
 LEVEL = "fault_enumeration"
@@ -58,7 +59,8 @@ def judge(res, facts, inject, label, base, cnt):
             continue
         if inject is not None and inject[0] in ("fault", "fault+cancel") and res.get("fault_call") == name:
             continue  # the injected fault hit this caller's own operation (its class is C15's business)
-        if shared_h2 and o.kind == "exc" and documented(o.exc):
+        if shared_h2 and o.kind == "exc" and documented(o.exc) and not isinstance(o.exc, httpcore.LocalProtocolError):
+            # (LocalProtocolError is never shared fate: it tells a caller that its own, legal, request was illegal)
             # streams multiplexed on the connection the injection broke share its fate
             cnt["cocaller_shared_fate"] += 1
             continue
